@@ -415,7 +415,7 @@ def dec_epath(data, off, padded=False, lenient=False):
     i = off
     while i < end:
         b = data[i]
-        if lenient and not (b == 0x91 or b & 0xE0 == 0x20 or b & 0xE0 == 0x00):
+        if lenient and not (b == 0x91 or b & 0xE0 == 0x20 or (b & 0xE0 == 0x00 and b & 0x0F)):
             return segs, i          # the path ends where no segment can start
         if b == 0x91:
             n = data[i + 1]
